@@ -10,7 +10,7 @@ import (
 // Input families
 
 var inputFamilies = []string{"iid1", "iid2", "iid3", "iid4", "iid16", "iid256", "zeroheavy", "runs", "periodic",
-	"copyback", "fib", "thue", "debruijn", "zeroprefix_runs", "tandem", "nested", "powers"}
+	"copyback", "fib", "thue", "debruijn", "zeroprefix_runs", "tandem", "nested", "powers", "listtwice"}
 
 func genInput(r *RNG, n int, fam string) []byte {
 	b := make([]byte, n)
@@ -191,6 +191,38 @@ func genInput(r *RNG, n int, fam string) []byte {
 		}
 		for i := range b {
 			b[i] = unit[i%len(unit)]
+		}
+	case "listtwice":
+		// a sorted list of records (each a run of a two-byte word followed by
+		// a common tail), written two or three times: tandem-repeat groups at
+		// the bottom of the rank sorter's stack together with an exhausted
+		// budget (measured: about 1 text in 100 takes that path)
+		k := 2 + r.Intn(3)
+		tail := make([]byte, 1+r.Intn(4))
+		for i := range tail {
+			tail[i] = base + byte(r.Intn(k))
+		}
+		var lines [][]byte
+		for i := 2 + r.Intn(8); i > 0; i-- {
+			w := []byte{base + byte(r.Intn(k)), base + byte(r.Intn(k))}
+			var l []byte
+			for p := 1 + r.Intn(8); p > 0; p-- {
+				l = append(l, w...)
+			}
+			lines = append(lines, append(l, tail...))
+		}
+		// insertion sort (deterministic, no library order dependence)
+		for i := 1; i < len(lines); i++ {
+			for j := i; j > 0 && string(lines[j-1]) > string(lines[j]); j-- {
+				lines[j-1], lines[j] = lines[j], lines[j-1]
+			}
+		}
+		var list []byte
+		for _, l := range lines {
+			list = append(list, l...)
+		}
+		for i := range b {
+			b[i] = list[i%len(list)]
 		}
 	case "copyback256":
 		// unique strings (literals over the full alphabet) and exact repeats
